@@ -13,13 +13,21 @@ package qr
 //	N3: every occurrence, in a row or a column, of the seven modules
 //	    dark-light-dark-dark-dark-light-dark (1:1:3:1:1) that has four light
 //	    modules directly before it or directly after it (or both) scores N3
-//	    once.  The four light modules must all lie inside the symbol; the
-//	    quiet zone does not count.
+//	    once.  Positions outside the symbol count as light (the quiet zone
+//	    is light), so a pattern that starts within the first four modules of a
+//	    line, or ends within the last four, and has only light modules between
+//	    itself and the edge, scores as well.  In particular the finder
+//	    patterns themselves score along the symbol edges.
+//	    (The other defensible reading, requiring the four light modules to
+//	    lie inside the symbol, is available internally as
+//	    penaltyN3(m, false); the gozxing library was observed, as a black
+//	    box, to use the quiet-zone-is-light reading, and with it BestMask
+//	    agreed with the library's automatic choice on all sampled inputs.)
 //	N4: with d the number of dark modules and t the total number of
 //	    modules, the score is N4 * floor(|2d - t| * 10 / t), i.e. N4 times the
 //	    number of whole 5% steps by which the dark ratio deviates from 50%.
 func Penalty(m [][]bool) int {
-	return penaltyN1(m) + penaltyN2(m) + penaltyN3(m, false) + penaltyN4(m)
+	return penaltyN1(m) + penaltyN2(m) + penaltyN3(m, true) + penaltyN4(m)
 }
 
 const (
